@@ -687,11 +687,13 @@ func filterRow(f *btpb.RowFilter, r *btpb.Row) (bool, error) {
 		}
 		return true, nil
 	case *btpb.RowFilter_Condition_:
-		match, err := filterRow(f.Condition.PredicateFilter, copyRow(r))
+		pr := copyRow(r)
+		match, err := filterRow(f.Condition.PredicateFilter, pr)
 		if err != nil {
 			return false, err
 		}
-		if match {
+		// the predicate holds iff it yields at least one cell
+		if match && !isEmpty(pr) {
 			if f.Condition.TrueFilter == nil {
 				return false, nil
 			}
